@@ -421,6 +421,32 @@ Proof.
   destruct k; vm_compute in H; discriminate.
 Qed.
 
+(** The same deferred release also released what the renter named: a failed request that
+    lists an output the host had reserved for another exchange unlocked it. *)
+Lemma release_prefix_overrelease_refuted : ∀ k,
+  ∃ e h m1 m2, ho_ok (host_run false k e h m1 m2) = false ∧
+    (9%N ∈ w_locked (h_wallet h)) ∧
+    ¬ (9%N ∈ w_locked (h_wallet (ho_host (host_run false k e h m1 m2)))).
+Proof.
+  intros k.
+  exists e_same, (mk_host 2 (mk_wallet [mk_utxo 1 100 false; mk_utxo 2 300 false; mk_utxo 9 500 false] {[9%N]}) [] [] []),
+    (Some (mk_req t3 [(11%N, 150); (9%N, 500)] 0)), None.
+  split; [by destruct k; vm_compute|]. split; [set_solver|].
+  intros H.
+  assert (bool_decide (9%N ∈ w_locked (h_wallet (ho_host (host_run false k e_same
+    (mk_host 2 (mk_wallet [mk_utxo 1 100 false; mk_utxo 2 300 false; mk_utxo 9 500 false] {[9%N]}) [] [] [])
+    (Some (mk_req t3 [(11%N, 150); (9%N, 500)] 0)) None)))) = true) as Hb by (by apply bool_decide_eq_true_2).
+  destruct k; vm_compute in Hb; discriminate.
+Qed.
+
+(** the repaired handlers leave it reserved (hypothesis and conclusion of
+    [host_failure_releases] on the same run) *)
+Example ex_foreign_input_fixed : ∀ k,
+  let h := mk_host 2 (mk_wallet [mk_utxo 1 100 false; mk_utxo 2 300 false; mk_utxo 9 500 false] {[9%N]}) [] [] [] in
+  let o := host_run true k e_same h (Some (mk_req t3 [(11%N, 150); (9%N, 500)] 0)) None in
+  ho_ok o = false ∧ h_wallet (ho_host o) = h_wallet h.
+Proof. intros k. cbn zeta. split; [by destruct k; vm_compute|]. apply host_failure_releases. by destruct k; vm_compute. Qed.
+
 (** ... and every repetition locks more: after three such requests nothing is left. *)
 Lemma release_prefix_exhausts :
   ∃ l h, Forall (λ b, b = false) (snd (host_attempts false h l)) ∧
